@@ -539,6 +539,7 @@ pub fn run<P: Property>(args: &RunArgs) -> i32 {
                         cfg.max_shrink_time = 30_000;
                         cfg.verbose = 0;
                         cfg.max_global_rejects = 1_000_000;
+                        cfg.max_local_rejects = 10_000_000;
                         let stats = RefCell::new(Stats::default());
                         let failed = Cell::new(false);
                         let bug: RefCell<Option<String>> = RefCell::new(None);
